@@ -101,3 +101,12 @@ Theorem C10_modelled_functions_are_the_source's :
   gen_src_ema_grouped_timed = src_ema_grouped_timed.
 Proof. exact (conj pin_ema_adjusted (conj pin_ema_time_weighted (conj pin_ema_grouped pin_ema_grouped_timed))). Qed.
 Print Assumptions C10_modelled_functions_are_the_source's.
+
+(* the bit-exact transcription of the grouped EMA kernel in primitive floats (Model/EmaFloat.v) that C10's stream runs against
+   the real kernel *)
+From Coq Require Import PrimFloat.
+From GL Require Import Model.EmaFloat.
+Example C10_float_model_example :
+  same_listE (ema_grouped_float 0.5 2 [(0%Z, 1, true); (1%Z, 4, true); (0%Z, 3, true); ((-1)%Z, 9, true); (0%Z, nan, true); (1%Z, 8, false)]%float)
+             [1; 4; 0x1.2aaaaaaaaaaabp+1; nan; 0x1.2aaaaaaaaaaabp+1; 4]%float = true.
+Proof. vm_compute. reflexivity. Qed.
